@@ -10,6 +10,7 @@ import (
 	"gitee.com/xuesongtao/protoc-go-valid/valid"
 
 	"verifharness/ev"
+	"verifharness/model"
 )
 
 // proxyCache is installed once (SetStructTypeCache is one-shot) and forwards to
@@ -75,6 +76,11 @@ func TestMain(m *testing.M) {
 	if os.Getenv("VERIF_NO_PROXY") == "" {
 		valid.SetStructTypeCache(proxy)
 		proxyInstalled = true
+	}
+	if sep := os.Getenv("VERIF_SEP"); sep != "" {
+		// the clause separator is an exported variable of the library: this process runs with another one
+		valid.ErrEndFlag = sep
+		model.Sep = sep
 	}
 	registerGlobals()
 	code := m.Run()
